@@ -60,7 +60,7 @@ FLOORS = {
     'node:attr': (0.10, 'node'),
     'node:xsi-type-complex': (0.005, 'node'),
     'node:xsi-type-simple': (0.005, 'node'),
-    'path:nonempty': (0.25, 'path'),
+    'path:nonempty': (0.18, 'path'),
     'path:value-pred': (0.05, 'path'),
     'path:attr': (0.10, 'path'),
     'path:attr-context': (0.10, 'path'),
